@@ -439,6 +439,122 @@ def link_histories(R, tier, rng):
                    None)
 
 
+def pixel_alignment_histories(R, tier, rng):
+    """slice selections evaluated on a pixel-linked dataset while the pixel links are added, removed, swapped (axes permuted) in one
+    update or in several; after every step the mask / statistic on the other dataset must equal what the *current* links imply"""
+    from glue.core import Data, DataCollection
+    from glue.core.link_helpers import LinkSame
+    from glue.core.subset import SliceSubsetState
+    from glue.core.exceptions import IncompatibleAttribute
+    n = 3
+    ops = ['straight', 'swapped', 'none', 'straight-one-update', 'swapped-one-update', 'straight-delayed', 'swapped-delayed']
+    L = 3 if tier == 'quick' else 4
+    for seq in itertools.product(ops, repeat=L):
+        if seq[0] == 'none':
+            continue
+        d1 = Data(v=np.arange(n * n, dtype=float).reshape((n, n)), label='d1')
+        d2 = Data(w=np.arange(n * n, dtype=float).reshape((n, n)) * 10, label='d2')
+        dc = DataCollection([d1, d2])
+        state = SliceSubsetState(d1, [slice(0, 1), slice(None)])          # first row of d1
+        cur = []
+        order = None
+        bad = None
+        for k, o in enumerate(seq):
+            kind = o.split('-')[0]
+
+            def links_for(kind):
+                if kind == 'none':
+                    return []
+                pairs = [(0, 0), (1, 1)] if kind == 'straight' else [(0, 1), (1, 0)]
+                return [LinkSame(d1.pixel_component_ids[a], d2.pixel_component_ids[b]) for a, b in pairs]
+            new = links_for(kind)
+            try:
+                if o.endswith('one-update'):
+                    dc.set_links(new)
+                elif o.endswith('delayed'):
+                    with dc.delay_link_manager_update():
+                        for l in cur:
+                            dc.remove_link(l)
+                        for l in new:
+                            dc.add_link(l)
+                else:
+                    for l in cur:
+                        dc.remove_link(l)
+                    for l in new:
+                        dc.add_link(l)
+            except Exception as e:
+                bad = (k, o, 'exception', '%s: %s' % (type(e).__name__, e), '')
+                break
+            cur, order = new, (None if kind == 'none' else kind)
+            exp = np.zeros((n, n), bool)
+            if order == 'straight':
+                exp[0, :] = True
+            elif order == 'swapped':
+                exp[:, 0] = True          # d1 axis 0 is d2 axis 1
+            try:
+                got = np.asarray(d2.get_mask(state))
+            except IncompatibleAttribute:
+                got = None
+            if order is None:
+                ok = got is None or not got.any()
+            else:
+                ok = got is not None and np.array_equal(got, exp)
+            if ok and order is not None:
+                try:
+                    sm = d2.compute_statistic('sum', d2.id['w'], subset_state=state)
+                    ok = bool(np.isclose(sm, float(np.asarray(d2['w'])[exp].sum())))
+                    got = 'sum %r' % (sm,) if not ok else got
+                except Exception as e:
+                    ok, got = False, '%s: %s' % (type(e).__name__, e)
+            if not ok:
+                bad = (k, o, 'mask', fmt(got) if isinstance(got, np.ndarray) else got, fmt(exp))
+                break
+        R.count(('pixel-links', seq), 'pixel-alignment-histories')
+        if bad:
+            k, o, what, g, e = bad
+            R.fail("stale|pixel-alignment|%s|%s" % (o, what), "pixel-link history %r: after step %d (%s) the first row of d1 selects %r in d2, the current links imply %r" % (list(seq), k, o, g, e), None)
+
+
+def nested_move_histories(R, tier, rng):
+    """a composite nested inside evaluated composites is moved directly (inner.move_to): every enclosing selection must follow"""
+    from glue.core import subset as S
+    from glue.core import roi as G
+    d = mk_data()
+    x, y = d.id['x'], d.id['y']
+
+    def build():
+        rect = S.RoiSubsetState(x, y, G.RectangularROI(0.5, 3.5, 0, 7))
+        circ = S.RoiSubsetState(x, y, G.CircularROI(2, 5, 1.6))
+        inner = rect | circ
+        mid = inner & (d.id['x'] > -100)
+        outer = ~mid ^ (d.id['y'] > 1e9)
+        return inner, mid, outer
+    targets = [(5.0, 3.5), (1.0, 1.0), (6.5, 6.5)]
+    for which in ('inner-of-mid', 'inner-of-outer', 'mid-of-outer'):
+        for views in ((None,), (None, (slice(None, None, 2),))):
+            inner, mid, outer = build()
+            for st in (inner, mid, outer):
+                for v in views:
+                    st.to_mask(d, v)                 # everything evaluated (and memoised) before the moves
+            for t in targets:
+                moved = {'inner-of-mid': mid.state1, 'inner-of-outer': outer.state1.state1.state1, 'mid-of-outer': outer.state1.state1}[which]
+                try:
+                    moved.move_to(*t)
+                except Exception as e:
+                    R.fail("stale|nested-move|%s|exception" % which, "move_to on the %s raised %s: %s" % (which, type(e).__name__, e), None)
+                    break
+                for nm, st in (('inner', inner), ('mid', mid), ('outer', outer)):
+                    # the objects in the tree are copies made by the combinators: observe through the tree itself
+                    pass
+                top = {'inner-of-mid': mid, 'inner-of-outer': outer, 'mid-of-outer': outer}[which]
+                for v in views:
+                    got = np.asarray(top.to_mask(d, v))
+                    exp = np.asarray(rebuild_fresh(top).to_mask(d, v))
+                    R.count(('nested-move', which, t, repr(v)), 'nested-move-histories')
+                    if not np.array_equal(got, exp):
+                        R.fail("stale|nested-move|%s|mask" % which, "after moving the %s to %r the enclosing selection still gives %s (view %r), a fresh copy gives %s" % (which, t, fmt(got), v, fmt(exp)), None)
+
+
 def fmt2(v):
     return v if isinstance(v, str) else np.asarray(v).tolist()
 
@@ -456,4 +572,6 @@ def run(tier, seed, R):
     roi_histories(R, tier)
     data_histories(R, tier, rng)
     link_histories(R, tier, rng)
+    pixel_alignment_histories(R, tier, rng)
+    nested_move_histories(R, tier, rng)
     R.samples.append({"history": "selection (~rect|(gt^range)): observe; update_components({y,x}); observe vs fresh copy; move_to(5,3); observe vs fresh copy"})
